@@ -5,6 +5,7 @@ every component slice handed to the string constructors has a non-negative lengt
 and no local (the protocol / service lookup results) is read on a path on which it was never assigned, whatever
 the lookups return (found / not found are both explored).  Component exactness and the round trip are not decided."""
 from .. import facts, expr as X
+from ..facts import walk
 from ..report import Check
 from ..cap import Cap
 from ..capcheck import run_cap
@@ -17,9 +18,63 @@ class UrlCap(Cap):
         return fn.unit is not self.cur_fn.unit or Cap.no_inline(self, fn)
 
 
+# components whose spelling is attached to another component by the URL grammar:  user[:passwd]@   host[:port]
+COUPLED = {"passwd": {"user"}, "port": {"host"}}
+
+
+def check_unparse(chk, prog):
+    """W1: parse and unparse agree on the component table (every component field parse stores is emitted by unparse);
+    W2: unparse emits a component whenever that component is present - the emission is controlled only by the presence of
+    the component itself and of the component it is syntactically attached to, never by an unrelated one"""
+    parse, unparse = prog.need("spif_url_parse"), prog.need("spif_url_unparse")
+
+    def self_field(e, f):
+        s_ = X.strip(e)
+        if s_ is not None and s_.get("k") == "member" and s_.get("arrow"):
+            b = X.strip(s_["ch"][0])
+            if b.get("k") == "ref" and b.get("rk") == "param" and b.get("pi") == 0:
+                return s_["n"]
+        return None
+    stored = set()
+    for x in walk(parse.body):
+        if x.get("k") == "assign" and x.get("op") == "=":
+            f_ = self_field(x["ch"][0], parse)
+            if f_ is not None and not X.is_null_const(x["ch"][1]):
+                stored.add(f_)
+    emitted = {}
+    for c in X.calls_in(unparse.body):
+        if (X.callee_name(c) or "") in ("spif_str_append", "spif_str_append_from_ptr"):
+            for a in c["ch"][2:]:
+                for y in walk(a):
+                    f_ = self_field(y, unparse)
+                    if f_ is not None:
+                        emitted.setdefault(f_, []).append(c)
+    chk.count("url_components_stored_by_parse", len(stored), floor=7)
+    for f_ in sorted(stored):
+        chk.ob("W1", unparse.name, "emits:" + f_, f_ in emitted, loc=unparse.loc(unparse.body),
+               detail="spif_url_parse stores the component `%s` but spif_url_unparse never emits it: recomposition loses the component" % f_,
+               proof="an append of self->%s exists" % f_)
+    for f_, calls in sorted(emitted.items()):
+        for c in calls:
+            others = set()
+            for a in unparse.ancestors(c):
+                if a.get("k") == "if":
+                    for y in walk(a["cond"]):
+                        g = self_field(y, unparse)
+                        if g is not None:
+                            others.add(g)
+            bad = sorted(others - {f_} - COUPLED.get(f_, set()))
+            chk.ob("W2", unparse.name, "emission-control:" + f_, not bad, loc=unparse.loc(c),
+                   detail="spif_url_unparse emits `%s` only when `%s` is present too: a URL that has %s but no %s loses it on recomposition "
+                          "(the grammar attaches only passwd to user and port to host)" % (f_, ", ".join(bad), f_, ", ".join(bad)),
+                   proof="controlled by the presence of %s only" % " / ".join([f_] + sorted(COUPLED.get(f_, ()))))
+
+
 def run(tier="quick"):
     chk = Check("C14", level="other", tier=tier,
                 explanation="CAP (strict) over url.c: cursor and slice bounds, lookup results used only after being obtained and tested")
+    chk.rule("W1", "every component parse stores is emitted by unparse")
+    chk.rule("W2", "a component's emission depends only on its own presence (and the component it is attached to)")
     chk.rule("B1", "cursor/look-ahead inside the text; slices non-negative and inside the text; lookup results assigned and non-NULL before use")
     prog = facts.extract()
     u = prog.units.get("url.c")
@@ -41,6 +96,7 @@ def run(tier="quick"):
     n, nund, samples = run_cap(chk, prog, fns, rule="B1", noreturn=NORETURN, strict=True,
                                cap_factory=lambda p: UrlCap(p, noreturn=NORETURN),
                                kinds={"lower", "upper", "null", "count", "cursor", "freed", "uninit", "slice"})
+    check_unparse(chk, prog)
     parse = prog.need("spif_url_parse")
     slices = sum(1 for c in X.calls_in(parse.body) if (X.callee_name(c) or "").endswith("_from_buff"))
     chk.count("functions", n, floor=4)
